@@ -32,7 +32,7 @@ def conjuncts(f):
     return [f]
 
 
-def build_query(c, goal, hyps=(), hints=(), path_len=None, negate=True, full=False, core=False):
+def build_query(c, goal, hyps=(), hints=(), path_len=None, negate=True, full=False, core=False, max_depth=None):
     """Assertions for  defs ∧ hyps ∧ path ∧ hints ∧ ¬goal  restricted to the cone of the goal.
 
     hyps: preconditions (formulas); hints: proof hints (formulas that are themselves
@@ -63,10 +63,15 @@ def build_query(c, goal, hyps=(), hints=(), path_len=None, negate=True, full=Fal
     used_def = [False] * len(defs)
     used_h = [False] * len(pool_h)
     changed = True
+    rounds = 0
     while changed:
         changed = False
+        rounds += 1
+        if max_depth is not None and rounds > max_depth:
+            break           # shallow cone: definitions of deeper variables are dropped (they stay free: sound for unsat)
+        frozen = set(rel)
         for i, (names, f, v) in enumerate(defs):
-            if not used_def[i] and (names & rel):
+            if not used_def[i] and (names & (frozen if max_depth is not None else rel)):
                 used_def[i] = True
                 chosen.append(f)
                 if not v <= rel:
